@@ -181,6 +181,7 @@ pub fn parse_debug_r(s: &str) -> Option<f64> {
 pub struct Shown {
     pub reached_max: bool,
     pub iters: u64,
+    #[allow(dead_code)]
     pub obj: f64,
     pub nsv: usize,
 }
